@@ -272,7 +272,17 @@ func (r *rec) ante(w *world.World) {
 						err = fmt.Errorf("encode panic: %v", x)
 					}
 				}()
-				tx, err = w.SignTx(ctx, u1, 500000, nil, 0, m)
+				// signed by the account the message names as its signer when that is one of the harness's actors
+				// (so that the transaction gets past signature verification and deeper into the ante chain)
+				signer := u1
+				if sg, _, e := w.App.AppCodec().GetMsgV1Signers(m); e == nil && len(sg) > 0 {
+					for _, a := range w.Actors {
+						if string(a.Acc()) == string(sg[0]) {
+							signer = a
+						}
+					}
+				}
+				tx, err = w.SignTx(ctx, signer, 500000, nil, 0, m)
 			}()
 			if err != nil {
 				r.res.Outcomes["ante/not-encodable"]++
